@@ -342,25 +342,38 @@ Fixpoint zlist_eqb (a b : list Z) : bool :=
   | _, _ => false
   end.
 
+(* The suite sends, per operation, [result code; created id; current env; pointer; active id] exactly
+   plus a 31-bit hash of the complete encoding (result + whole observation) — the complete
+   encoding is compared exactly whenever one of these differs (run_trace), see suites/llamactl.py. *)
+Definition hmod : Z := 2147483629.
+Fixpoint zhash (l : list Z) (acc : Z) : Z :=
+  match l with
+  | [] => acc
+  | x :: t => zhash t ((acc * 1000003 + x + 17) mod hmod)
+  end.
+Definition compact (full : list Z) : list Z := firstn 5 full ++ [zhash full 7].
+
 Fixpoint run_check_from (ne nn : Z) (s : st) (k : Z) (ops : list op) (expected : list (list Z)) : Z :=
   match ops, expected with
   | [], [] => 0
   | o :: t, e :: te =>
     let (s', r) := step s o in
-    if zlist_eqb (enc_res r ++ obs ne nn s') e then run_check_from ne nn s' (k + 1) t te else k
+    if zlist_eqb (compact (enc_res r ++ obs ne nn s')) e then run_check_from ne nn s' (k + 1) t te else k
   | _, _ => -1
   end.
 Definition run_check (ne nn : Z) (ops : list op) (expected : list (list Z)) : Z :=
   run_check_from ne nn init 1 ops expected.
 
-(* diagnostics: the model's own trace *)
+(* diagnostics: the model's own complete trace, one -7 after each operation's encoding *)
 Fixpoint run_trace (ne nn : Z) (s : st) (ops : list op) : list Z :=
   match ops with
   | [] => []
-  | o :: t => let (s', r) := step s o in enc_res r ++ obs ne nn s' ++ run_trace ne nn s' t
+  | o :: t => let (s', r) := step s o in enc_res r ++ obs ne nn s' ++ [-7] ++ run_trace ne nn s' t
   end.
 
-(* one transition from an explicitly given state (exhaustive exploration in the thorough tier) *)
+(* one transition from an explicitly given state (exhaustive exploration) *)
 Definition edge_check (ne nn : Z) (s : st) (o : op) (expected : list Z) : Z :=
   let (s', r) := step s o in
-  if zlist_eqb (enc_res r ++ obs ne nn s') expected then 0 else 1.
+  if zlist_eqb (compact (enc_res r ++ obs ne nn s')) expected then 0 else 1.
+Definition edge_trace (ne nn : Z) (s : st) (o : op) : list Z :=
+  let (s', r) := step s o in enc_res r ++ obs ne nn s'.
